@@ -96,3 +96,19 @@ def observe(src, timeout=5, filename='<prog>', optimize=-1):
         except Exception as e:       # a __repr__/property of the program raising
             pub[k] = 'unsummarisable:' + type(e).__name__
     return {'out': buf.getvalue(), 'ending': ending, 'globals': pub, 'imports': imports}
+
+
+def diff(a, b):
+    """the differences between two observations, as text"""
+    out = []
+    if a['out'] != b['out']:
+        out.append('stdout differs: %r vs %r' % (a['out'][-200:], b['out'][-200:]))
+    if a['ending'] != b['ending']:
+        out.append('ending differs: %s vs %s' % (a['ending'], b['ending']))
+    if a['globals'] != b['globals']:
+        ks = sorted(set(a['globals']) | set(b['globals']))
+        d = [(k, a['globals'].get(k), b['globals'].get(k)) for k in ks if a['globals'].get(k) != b['globals'].get(k)]
+        out.append('public namespace differs: %r' % (d[:4],))
+    if a.get('imports', []) != b.get('imports', []):
+        out.append('import events differ: %r vs %r' % (a.get('imports', [])[:8], b.get('imports', [])[:8]))
+    return out
